@@ -192,14 +192,83 @@ fn run_scenario(sc: &Value, t: &mut Tracer) {
 	t.ev(json!({"a": "end"}));
 }
 
+/// A send track and a track routed to it are built while a callback is reading its new resources (the audio
+/// thread is parked at the `sto.refill` yield point of one of the mixer's storages): whenever the track is heard,
+/// its route must be heard too.  Scenario: {"mode":"racy_add","park":"sub"|"send","src":..}
+fn run_racy_add(sc: &Value, t: &mut Tracer) {
+	use kira::{backend::Renderer, AudioManager, AudioManagerSettings};
+	let park = sc["park"].as_str().unwrap_or("sub");
+	t.reset(json!({"mode": "racy_add", "park": park, "src": sc["src"]}));
+	let mut manager = AudioManager::<VBackend>::new(AudioManagerSettings {
+		capacities: Capacities::default(),
+		main_track_builder: MainTrackBuilder::new(),
+		internal_buffer_size: 4,
+		backend_settings: VSettings { sample_rate: RATE },
+	})
+	.unwrap();
+	let renderer = manager.backend_mut().renderer.take().unwrap();
+	let (tx, rx) = std::sync::mpsc::channel::<Renderer>();
+	tx.send(renderer).unwrap();
+	let aw: Worker<Renderer> = Worker::spawn("audio", move || rx.recv().unwrap());
+	// the top-level storages are told apart by the type they hold
+	aw.ctl.set_tag(if park == "sub" { "track::sub::Track" } else { "track::send::SendTrack" });
+	aw.start(&["sto.refill"], |r| {
+		let res = run_callback(r, 4, 2);
+		json!({"out": res.out})
+	});
+	let parked = matches!(aw.wait(), Status::Parked(_));
+	// gameplay thread, while the callback is between its drains: the send track first (the route needs its id)
+	let send = manager.add_send_track(SendTrackBuilder::new()).unwrap();
+	let mut track = manager.add_sub_track(TrackBuilder::new().with_send(&send, Decibels(0.0))).unwrap();
+	let p = P { count: Default::default(), asks: Default::default(), finished: Default::default() };
+	track.play(ProbeData(Probe { base: 4096, count: p.count.clone(), asks: p.asks.clone(), finished: p.finished.clone() })).unwrap();
+	aw.ctl.set_tag("");
+	aw.ctl.set_sites(&[]);
+	let mut outs = vec![];
+	if let Status::Done(v) = aw.finish() {
+		outs.push(v["out"].clone());
+	}
+	for _ in 0..3 {
+		if let Status::Done(v) = aw.call(|r| {
+			let res = run_callback(r, 4, 2);
+			json!({"out": res.out})
+		}) {
+			outs.push(v["out"].clone());
+		}
+	}
+	for (k, o) in outs.iter().enumerate() {
+		// probe frames are base * (1 + j mod 4) / 2^17: normalise by that ramp -> 0 (not heard), 1 (direct only), 2 (direct + send)
+		let vals: Vec<i64> = o
+			.as_array()
+			.unwrap()
+			.chunks(2)
+			.enumerate()
+			.map(|(j, c)| {
+				let x = c[0].as_f64().unwrap_or(f64::NAN) * SCALE / 4096.0 / (1 + (j % 4)) as f64;
+				if x.fract() == 0.0 { x as i64 } else { -999 }
+			})
+			.collect();
+		t.ev(json!({"a": "racycb", "k": k, "parked": parked, "paths": vals}));
+	}
+	drop(track);
+	drop(send);
+	aw.shutdown();
+	t.ev(json!({"a": "end"}));
+}
+
 fn main() {
 	let args: Vec<String> = std::env::args().collect();
 	quiet_panics();
+	install_hook();
 	let inp = arg(&args, "--in").expect("--in");
 	let out = arg(&args, "--out").expect("--out");
 	let mut t = Tracer::create(&out);
 	for sc in read_scenarios(&inp) {
-		run_scenario(&sc, &mut t);
+		if sc["mode"] == "racy_add" {
+			run_racy_add(&sc, &mut t);
+		} else {
+			run_scenario(&sc, &mut t);
+		}
 	}
 	t.flush();
 	println!("events {}", t.events);
